@@ -11,6 +11,7 @@
 From Coq Require Import List NArith ZArith Arith Lia.
 From Iodine Require Import Base Codec CodecProofs Hostname DnsName DnsNameProofs DnsMsg Domain
   DomainProofs HostnameProofs Properties_C07.
+From Iodine Require Server DomainDispatchProofs.
 Import ListNotations.
 Local Open Scope N_scope.
 
@@ -161,6 +162,28 @@ Proof.
   split; [exact Hdns|]. split; [exact Hq|exact Hu].
 Qed.
 Print Assumptions C08_server_extract.
+
+(* ... and the server's dispatcher hands exactly that length on: for a query carrying such a name, of a tunnel record
+   type and not the ns./www. address query, tunnel_dns() is handle_null_request() with the data length
+   "characters before the client's domain" -- whether the server is configured with the domain itself, in another
+   letter case, or with a wildcard for its first label (extraction stage of checks/c08.py ties this to the real
+   tunnel_dns of iodined.c) *)
+Theorem C08_dispatcher_hands_on_data_part : forall login unz (cf : Server.cfg) st now rnd (q : Server.hq) c d data L buflen hdr name n,
+  C08_range c d data L buflen hdr ->
+  check_topdomain (Server.c_topdomain cf) true = true -> serves (Server.c_topdomain cf) d ->
+  build_hostname c buflen data d L = Some (name, n) ->
+  Server.h_name q = hdr ++ name ->
+  let dl := (length (hdr ++ name) - length d)%nat in
+  DomainDispatchProofs.tunnel_rr (Server.h_type q) = true ->
+  DomainDispatchProofs.ns_a_query q dl = false -> DomainDispatchProofs.www_a_query q dl = false ->
+  Server.tunnel_dns login unz cf st now rnd q = Server.handle_null_request login unz cf st now rnd q dl.
+Proof.
+  intros login unz cf st now rnd q c d data L buflen hdr name n HR Hsd Hserves Hb Hn dl Ht Hns Hwww.
+  destruct (C08_range_upstream c d (Server.c_topdomain cf) data L buflen hdr name n HR Hsd Hserves Hb)
+    as [_ [_ [_ [_ [_ [Hq _]]]]]].
+  apply DomainDispatchProofs.tunnel_dns_inside_tunnel_rr; [rewrite Hn; exact Hq|exact Ht|exact Hns|exact Hwww].
+Qed.
+Print Assumptions C08_dispatcher_hands_on_data_part.
 
 (* ---- the client's builders --------------------------------------------------------------- *)
 
